@@ -414,7 +414,7 @@ pub fn prop() -> Prop<PCase> {
             "the harness is built with overflow checks on, so arithmetic overflow in the parser surfaces as a panic; the libFuzzer target (thorough) has the same oracle in-target",
         ],
         needs_shim: false,
-        budget: |t| t.pick(1600000, 20000000),
+        budget: |t| t.pick(8000000, 40000000),
         shards: |_| 16,
         strategy,
         exec,
